@@ -62,6 +62,7 @@ pub struct ConnView {
     pub delivered: usize,
     pub consumed: usize,
     pub inbound_len: usize,
+    pub write_blocked_at_end: bool,
 }
 
 pub struct Analysis {
@@ -192,6 +193,7 @@ impl Analysis {
             conns[c].delivered = p.delivered;
             conns[c].consumed = p.consumed;
             conns[c].inbound_len = p.inbound_len;
+            conns[c].write_blocked_at_end = p.write_blocked();
             let parsed_end = w.wire.iter().filter(|x| x.conn == c).map(|x| x.off + x.len).max().unwrap_or(0);
             conns[c].partial_tail = p.wire.len() - parsed_end;
         }
@@ -249,6 +251,6 @@ impl Analysis {
     }
     /// True when nothing injected a fault and every injected byte was consumed.
     pub fn fully_consumed(&self) -> bool {
-        self.conns.iter().all(|c| c.consumed == c.inbound_len)
+        self.conns.iter().all(|c| c.consumed == c.inbound_len && !c.write_blocked_at_end)
     }
 }
